@@ -85,6 +85,10 @@ CHECKS = {
         design_ref="5/C18, 3.2", note=REF_NOTE + " Overflow freedom is observed on the inputs driven, not proved; no adversarial witness exists for ML-DSA-44 with this construction."),
 }
 
+HIST_NOTE = " A shared history stage (DESIGN 3.6) additionally applies long random sequences of API calls to long-lived, near-twin key objects of all three parameter sets in one thread and compares every step with the stateless reference; this check judges the kind of step that belongs to its property."
+for _p in ("C01", "C02", "C03", "C04", "C07", "C09", "C10", "C11"):
+    CHECKS[_p]["text"] += HIST_NOTE
+
 ALL = [f"C{i:02d}" for i in range(1, 19)]
 
 
